@@ -234,6 +234,18 @@ static bool usable(const S &n, const Creds &c)
 }
 static bool has(const SV &l, const S &x) { return std::find(l.begin(), l.end(), x) != l.end(); }
 
+// is there an offered, enabled name of the shape HT-<something><tail> where chosen = HT-<tail>?
+static bool htAlias(const SV &all, const SV &disabled, const S &chosen)
+{
+    if (chosen.rfind("HT-", 0) != 0) return false;
+    S tail = chosen.substr(3);
+    for (auto &n : all)
+        if (n != chosen && !has(disabled, n) && n.rfind("HT-", 0) == 0 && n.size() > chosen.size() &&
+            n.compare(n.size() - tail.size(), tail.size(), tail) == 0)
+            return true;
+    return false;
+}
+
 static const SV DEFAULT_DISABLED = { "PLAIN" };  // property text: "PLAIN by default"
 static long long failPrinted = 0;
 
@@ -255,8 +267,12 @@ static bool oracle(const Conf &c, const SV &offer, const std::optional<SV> &fast
 
     if (!o.error.empty()) { fail("C05:unexpected-error", c, op, o); return false; }
     if (o.sent) {
-        if (has(disabled, o.mech)) { fail("C05:chosen-disabled", c, op, o); return false; }
-        if (!has(all, o.mech)) { fail("C05:chosen-not-offered", c, op, o); return false; }
+        // The two registered findings (known_findings.json) are reserved for their root cause: an offered, enabled name
+        // HT-<hash><hash>...-<cb> on which SaslHtMechanism::fromString's hash loop matches more than once, so that the
+        // mechanism used is HT-<last hash>-<cb>. Any other use of a disabled / unoffered mechanism gets its own key.
+        bool alias = htAlias(all, disabled, o.mech);
+        if (has(disabled, o.mech)) { fail(alias ? "C05:chosen-disabled" : "C05:disabled-mechanism-used", c, op, o); return false; }
+        if (!has(all, o.mech)) { fail(alias ? "C05:chosen-not-offered" : "C05:unoffered-mechanism-used", c, op, o); return false; }
         if (strength(o.mech) == -2 || !usable(o.mech, c.creds)) { fail("C05:chosen-not-usable", c, op, o); return false; }
         if (o.nSent != 1 || !o.pending) { fail("C05:sent-count", c, op, o); return false; }
         if (!c.preferred.empty() && has(permitted, c.preferred)) {
@@ -517,7 +533,7 @@ int main(int argc, char **argv)
         stat("exhaustive_u8_configs", (long long)confs8.size());
         // ... and all 4096 offers over the 12-name universe for a seeded sample of the configurations
         int n = 0;
-        for (size_t i = 0; i < confs12.size(); i++) if (rng.below(36) == 0) { allSubsets(confs12[i].first, confs12[i].second); n++; }
+        for (size_t i = 0; i < confs12.size(); i++) if (rng.below(16) == 0) { allSubsets(confs12[i].first, confs12[i].second); n++; }
         stat("exhaustive_u12_configs", n);
         auto confsB = allConfs(U12B);
         n = 0;
